@@ -35,4 +35,5 @@ func TestReplay_Front(t *testing.T) {
 	frontReplay("TestProp_C06_OutboundProcess", opRun("C06"))
 	frontReplay("TestProp_C16_OutboundProcess", opRun("C16"))
 	frontReplay("TestProp_C17_OutboundProcess", opRun("C17"))
+	frontReplay("TestProp_C18_OutboundReload", opRun("C18"))
 }
